@@ -309,7 +309,7 @@ func famCompare(dir string, seed int64, tier string) {
 				pair{[]sb.Token{mk('q', 0)}, []sb.Token{mk('q', 1)}})
 		}
 	}
-	for _, p := range pairs {
+	for pi, p := range pairs {
 		desc := "a=[" + descTokens(p.a) + "] b=[" + descTokens(p.b) + "]"
 		nan := hasNaNPayload(p.a) || hasNaNPayload(p.b)
 		ea := runEncode(p.a, 0, 0).bytes
@@ -362,6 +362,13 @@ func famCompare(dir string, seed int64, tier string) {
 			}
 		}
 		w.add(fmt.Sprintf("CmpCase %s %s %s %s %s", coqTokens(p.a), coqTokens(p.b), signStr(s1, e1), signStr(s2, e2), signStr(s3, e3)), desc, len(p.a) > 0 && len(p.b) > 0)
+		// the Must* wrappers and the caller-buffer variant of the comparison decoder agree with what they wrap
+		if !nan && len(ea)+len(eb) < 4000 {
+			apiMustCompare(rep, p.a, p.b, ea, eb)
+		}
+		if pi%7 == 0 || len(ea) > 30000 {
+			apiDecodeBufferForCompare(rep, ea, "a=["+truncate(descTokens(p.a), 300)+"]")
+		}
 	}
 
 	// reflexivity, Min/Max
